@@ -24,7 +24,8 @@ type Term struct {
 	N   int     `json:"n"`   // vec, arr
 	PK  bool    `json:"pk"`  // struct
 	FS  []*Term `json:"fs"`  // struct
-	NM  string  `json:"nm"`  // named
+	NM  string  `json:"nm"`  // named; struct node of a mutable object (spec/TypesMut.tla): its name, "" = literal
+	OP  bool    `json:"op"`  // struct node of a mutable object: opaque
 	Ret *Term   `json:"ret"` // func
 	PS  []*Term `json:"ps"`  // func
 	VA  bool    `json:"va"`  // func
